@@ -126,7 +126,7 @@ inductive Pc
   /-- the `else` arm loops without an await point: the session never returns -/
   | spin
   | mismatch
-deriving Repr
+deriving DecidableEq, Repr
 
 structure Cfg where
   /-- `logs`: author ↦ log ids, in map order -/
@@ -343,7 +343,7 @@ namespace P2.Sync
 
 /-- The tree the drivers describe (updated together with the `fix:` commits in /repo). -/
 def curCfg (scope : List (Nat × List Nat)) (cap : Nat) (rx : Bool) : Cfg :=
-  { scope := scope, cap := cap, rx := rx, fixDone := true, fixClosed := false }
+  { scope := scope, cap := cap, rx := rx, fixDone := true, fixClosed := true }
 
 end P2.Sync
 
